@@ -1526,10 +1526,13 @@ fn run_builder(r: &mut Rng, n: u64) {
         let file0 = if r.below(2) == 0 { Some("out.js") } else { None };
         let mut b = sourcemap::SourceMapBuilder::new(file0);
         let mut ops = vec![format!("F{}", opt_hex(file0))]; let mut rets = vec!["-".to_string()]; let mut nsrc = 0u32;
+        // every other history hands its strings over in one reused buffer each (a caller that formats paths into a scratch String): what counts is
+        // the text, not where it lives -- two different names of equal length at the same address are two names
+        let reuse = i % 2 == 1; let mut sbuf = String::with_capacity(64); let mut nbuf = String::with_capacity(64);
         for _ in 0..r.below(14) {
             match r.below(11) {
-                0 => { let s = spool[r.below(spool.len() as u64) as usize]; ops.push(format!("S={}", hex(s.as_bytes()))); let id = b.add_source(s); nsrc = nsrc.max(id + 1); rets.push(id.to_string()); }
-                1 => { let s = npool[r.below(npool.len() as u64) as usize]; ops.push(format!("N={}", hex(s.as_bytes()))); rets.push(b.add_name(s).to_string()); }
+                0 => { let s = spool[r.below(spool.len() as u64) as usize]; ops.push(format!("S={}", hex(s.as_bytes()))); let id = if reuse { sbuf.clear(); sbuf.push_str(s); b.add_source(&sbuf) } else { b.add_source(s) }; nsrc = nsrc.max(id + 1); rets.push(id.to_string()); }
+                1 => { let s = npool[r.below(npool.len() as u64) as usize]; ops.push(format!("N={}", hex(s.as_bytes()))); rets.push(if reuse { nbuf.clear(); nbuf.push_str(s); b.add_name(&nbuf) } else { b.add_name(s) }.to_string()); }
                 2 => { let rt = ["", "root", "root/"][r.below(3) as usize]; ops.push(format!("R={}", hex(rt.as_bytes()))); b.set_source_root(Some(rt)); rets.push("-".into()); }
                 3 if nsrc > 0 => { let k = r.below(nsrc as u64) as u32; let c = match r.below(3) { 0 => None, 1 => Some(""), _ => Some("body") }; ops.push(format!("C{}:{}", k, opt_hex(c))); b.set_source_contents(k, c); rets.push("-".into()); }
                 4 => { let k = r.below(nsrc as u64 + 3) as u32; ops.push(format!("I{}", k)); b.add_to_ignore_list(k); rets.push("-".into()); }   // also ids whose source is added later (or never)
@@ -1540,7 +1543,8 @@ fn run_builder(r: &mut Rng, n: u64) {
                 _ => { let so = if r.below(5) == 0 { None } else { Some(spool[r.below(spool.len() as u64) as usize]) }; let na = if r.below(3) == 0 { Some(npool[r.below(npool.len() as u64) as usize]) } else { None };
                        let (dl, dc, sl, sc) = (r.below(3) as u32, r.below(6) as u32, r.below(5) as u32, r.below(5) as u32); let rg = r.below(6) == 0;
                        ops.push(format!("A{}:{}:{}:{}:{}:{}:{}", dl, dc, sl, sc, so.map(|s| format!("={}", hex(s.as_bytes()))).unwrap_or("-".into()), na.map(|s| format!("={}", hex(s.as_bytes()))).unwrap_or("-".into()), if rg { 1 } else { 0 }));
-                       let t = b.add(dl, dc, sl, sc, so, na, rg); if t.src_id != !0 { nsrc = nsrc.max(t.src_id + 1); } rets.push(format!("{}/{}", t.src_id, t.name_id)); }
+                       let t = if reuse { sbuf.clear(); sbuf.push_str(so.unwrap_or("")); nbuf.clear(); nbuf.push_str(na.unwrap_or("")); b.add(dl, dc, sl, sc, so.map(|_| sbuf.as_str()), na.map(|_| nbuf.as_str()), rg) } else { b.add(dl, dc, sl, sc, so, na, rg) };
+                       if t.src_id != !0 { nsrc = nsrc.max(t.src_id + 1); } rets.push(format!("{}/{}", t.src_id, t.name_id)); }
             }
         }
         let sm = b.into_sourcemap();
